@@ -242,6 +242,83 @@ COMBINATORS = {
 }
 
 
+# value combinators (no closure): scrutinee arg0, one extra value arg1
+#   actions: ("payload",) dest = move payload, arg1 dropped; ("arg",) dest = move arg1;
+#            ("rewrap", V) dest = V(move payload), arg1 dropped; ("wraparg", V) dest = V(move arg1)
+VALUE_COMBINATORS = {
+    "core::option::Option::<T>::unwrap_or": (OPTION, {"Some": ("payload",), "None": ("arg",)}, {"Some": 0}),
+    "core::result::Result::<T, E>::unwrap_or": (RESULT, {"Ok": ("payload",), "Err": ("arg",)}, {"Ok": 0, "Err": 1}),
+    "core::option::Option::<T>::ok_or": (OPTION, {"Some": ("rewrap", "Ok"), "None": ("wraparg", "Err")}, {"Some": 0}),
+}
+
+
+def expand_value_combinator(b, i, stats):
+    blk = b["blocks"][i]
+    t = blk["term"]
+    f = t["func"]
+    if not (f["k"] == "const" and "fn" in f):
+        return False
+    spec = VALUE_COMBINATORS.get(f["fn"].get("def"))
+    if spec is None or t["target"] is None or len(t["args"]) != 2 or len(b["blocks"]) + 8 > MAX_BLOCKS:
+        return False
+    variants, actions, pidx = spec
+    scrut, extra = t["args"]
+    if scrut["k"] not in ("copy", "move"):
+        return False
+    span = t["span"]
+    dest, target = t["dest"], t["target"]
+    def_args = f["fn"].get("def_args") or []
+    out_adt = dest["ty"].split("<")[0]
+    sp = scrut["place"]
+
+    def new_local(ty):
+        b["locals"].append(ty)
+        return len(b["locals"]) - 1
+
+    def new_block(stmts, term):
+        b["blocks"].append({"stmts": stmts, "term": term, "cleanup": False})
+        return len(b["blocks"]) - 1
+
+    def payload(vname):
+        vi = [int(v) for v, n in variants if n == vname][0]
+        ty = def_args[pidx[vname]] if vname in pidx and pidx[vname] < len(def_args) else "?"
+        return {"l": sp["l"], "p": list(sp["p"]) + [{"k": "downcast", "variant": vname, "idx": vi},
+                                                    {"k": "field", "i": 0, "name": "0", "ty": ty}], "ty": ty}
+
+    def assign(place, rv):
+        return {"k": "assign", "place": copy.deepcopy(place), "rv": rv, "span": span}
+
+    def agg(variant, ops):
+        return {"k": "aggregate", "agg": "adt", "adt": out_adt, "adt_args": [], "variant": variant,
+                "fields": ["0"] if ops else [], "ops": ops}
+    # the extra value is evaluated before the call: keep it in a local so that both arms can name it
+    if extra["k"] in ("copy", "move"):
+        xop = copy.deepcopy(extra)
+    else:
+        xl = new_local(extra.get("ty", "?"))
+        blk["stmts"].append(assign({"l": xl, "p": [], "ty": extra.get("ty", "?")}, {"k": "use", "op": copy.deepcopy(extra)}))
+        xop = {"k": "move", "place": {"l": xl, "p": [], "ty": extra.get("ty", "?")}}
+    dl = new_local("isize")
+    blk["stmts"].append(assign({"l": dl, "p": [], "ty": "isize"}, {"k": "discr", "place": copy.deepcopy(sp), "variants": variants}))
+    unreach = new_block([], {"k": "unreachable", "span": span})
+    targets = []
+    for val, vname in variants:
+        act = actions[vname]
+        if act[0] in ("payload", "rewrap"):
+            rv = {"k": "use", "op": {"k": "move", "place": payload(vname)}} if act[0] == "payload" else agg(act[1], [{"k": "move", "place": payload(vname)}])
+            after = target
+            if xop["k"] == "move":
+                after = new_block([], {"k": "drop", "place": copy.deepcopy(xop["place"]), "needs_drop": True, "target": target, "unwind": None, "span": span})
+            targets.append([val, new_block([assign(dest, rv)], {"k": "goto", "target": after, "span": span})])
+        else:
+            rv = {"k": "use", "op": copy.deepcopy(xop)} if act[0] == "arg" else agg(act[1], [copy.deepcopy(xop)])
+            targets.append([val, new_block([assign(dest, rv)], {"k": "goto", "target": target, "span": span})])
+    blk["term"] = {"k": "switch", "discr": {"k": "move", "place": {"l": dl, "p": [], "ty": "isize"}}, "targets": targets,
+                   "otherwise": unreach, "span": span, "inlined": f["fn"].get("def")}
+    stats["<value>" + f["fn"].get("def")] = stats.get("<value>" + f["fn"].get("def"), 0) + 1
+    return True
+
+
 def _closure_def(b, local):
     """The crate closure a local is built from: its only definition is a closure aggregate (returns (path, stmt))."""
     found = None
@@ -383,7 +460,7 @@ def expand_combinators(j):
             for i in range(len(b["blocks"])):
                 blk = b["blocks"][i]
                 if blk["term"]["k"] == "call" and not blk["cleanup"]:
-                    if expand_combinator(b, i, originals, stats):
+                    if expand_combinator(b, i, originals, stats) or expand_value_combinator(b, i, stats):
                         changed = True
     # a closure is analysed in place only when every construction of it feeds an expanded call
     built = {}
@@ -402,7 +479,7 @@ def expand_combinators(j):
                         cd = _closure_def(b, a["place"]["l"]) if not a["place"]["p"] else None
                         if cd:
                             remaining_uses[cd[0]] = remaining_uses.get(cd[0], 0) + 1
-    fully = sorted(p for p in stats if remaining_uses.get(p, 0) == 0)
+    fully = sorted(p for p in stats if not p.startswith("<value>") and remaining_uses.get(p, 0) == 0)
     return stats, fully
 
 
